@@ -29,6 +29,10 @@ in order `/` the keys of TaxonSet() sorted) `isp:<ids>:<sched>` (slice.Iterator(
 a b: who calls Next; answer `a=…;b=…;r=…;f=…;ca=…;cb=…`: what each received, what is left, the finished flag, the
 `current` of each) `ispp:<ids>` (the two handles drained in parallel: the sorted union) `ifind:r:c,c` (obifind ITaxonRestrictions on Taxonomy.Iterator(), drained, sorted)
 
+`conc <g> <r> tax|taxd n… a… q…` (wave 3, `harness/c14_conc.go`): the queries of the `tax` / `taxd` case run alone (the result),
+then from `g` goroutines sharing the taxonomy and the predicates / workers built once, `r` rounds; `race conc …`: the same
+through a `go build -race` build of the harness
+
 `dump N<hex nodes.dmp> M<hex names.dmp> G<hex merged.dmp> [n… a…] q…` : the three files are loaded by the model of
 `ncbitaxdump.LoadNCBITaxDump` (`Model/TaxLoad.lean`); the `n`/`a` words (the tree the generator declared, used by the
 oracle of the harness) are ignored here.
@@ -463,12 +467,36 @@ def runTaxd (ws : List String) : String :=
     | .ok L => runLoaded L qs
   | _, _ => "bad-op"
 
+/-- the query kinds of a `conc` case (the harness prepares each once and runs it from several goroutines) -/
+def concOps : List String :=
+  ["path", "lca", "sub", "rank", "has", "res", "str", "name", "val", "vf", "rt", "ig", "rr", "flt", "rs", "rss", "sr", "sp", "hq",
+   "sw", "sn", "tr", "tpath", "wl", "wls", "isub", "irank", "ibel", "itx"]
+
+/-- `conc <g> <r> tax|taxd …` : the answers of the queries run ALONE, one after the other, i.e. the sequential case; the
+harness then runs the same queries from `g` goroutines sharing the taxonomy and the predicates / workers built once,
+`r` rounds, and demands these very answers from every call (the model side needs no new function: a query is a function
+of the taxonomy and of its arguments, whoever else is running) -/
+def runConc (g r : String) (ws : List String) : String :=
+  let count? (s : String) (hi : Nat) : Bool :=
+    match s.toNat? with
+    | some n => 1 ≤ n && n ≤ hi && toString n == s
+    | none => false
+  if !(count? g 64 && count? r 50) then "bad-op" else
+  let qs := ws.drop 1 |>.filter (·.startsWith "q")
+  if qs.isEmpty || !(qs.all fun q => concOps.contains (((q.drop 1).toString.splitOn ":").headD "")) then "bad-op" else
+  match ws with
+  | "tax" :: ws => runTax ws
+  | "taxd" :: ws => runTaxd ws
+  | _ => "bad-op"
+
 /-- `tax` (API) and `taxd` (dump directory) load the same data -/
 def run (line : String) : String :=
   match words line with
   | "tax" :: ws => runTax ws
   | "taxd" :: ws => runTaxd ws
   | "dump" :: ws => runDump ws
+  | "conc" :: g :: r :: ws => runConc g r ws
+  | "race" :: "conc" :: g :: r :: ws => runConc g r ws
   | _ => "bad-op"
 
 end ObiVerif.Driver.C14
